@@ -162,7 +162,9 @@ def grammar_worlds(wd, full=False, k=1):
         key = (v["ctor"], v["wrap"], v["role"], v["fkind"], v["dir"])
         if key not in seen:
             seen.add(key)
+            v["features"] = sorted(v["features"])      # a TLA+ set: TLC prints it in an order that differs from run to run
             out.append(v)
+    out.sort(key=lambda v: (v["ctor"], v["wrap"], v["role"], v["fkind"], v["dir"]))
     return g, out
 
 
@@ -196,8 +198,9 @@ def run_cli(cli, lang, wit, out_dir, args, timeout=60, check=False):
     return {"status": "error", "stderr": p.stderr.strip()[-300:]}
 
 
-def run_commands(cmds, wd, workers=14, timeout_ms=60000):
-    """cmds: list of (id, argv[, cwd]).  Runs them with the Rust worker pool; returns {id: result}."""
+def run_commands(cmds, wd, workers=14, timeout_ms=60000, stderr_chars=None):
+    """cmds: list of (id, argv[, cwd]).  Runs them with the Rust worker pool; returns {id: result}.
+    stderr is kept as its first 600 + last 1500 characters unless stderr_chars asks for the last N as a whole."""
     exe = os.path.join(cargo_build("small"), "small")
     jp = os.path.join(wd, "matrix_jobs.ndjson")
     op = os.path.join(wd, "matrix_out.ndjson")
@@ -206,6 +209,8 @@ def run_commands(cmds, wd, workers=14, timeout_ms=60000):
         r = {"id": c[0], "cmd": c[1], "timeout_ms": timeout_ms}
         if len(c) > 2 and c[2]:
             r["cwd"] = c[2]
+        if stderr_chars:
+            r["stderr_chars"] = stderr_chars
         rows.append(r)
     write_ndjson(jp, rows)
     sh([exe, "runmatrix", jp, op, str(workers)], check=True, timeout=7200)
